@@ -79,9 +79,9 @@ func step(w *cah.World, rec *recorder, c M, beh int) {
 	case "sign":
 		res, err = w.Sign(c)
 	case "rotate":
-		res = w.Reconfigure(true)
+		res, err = w.Reconfigure(true, c["race"] == true)
 	case "reconfig":
-		res = w.Reconfigure(false)
+		res, err = w.Reconfigure(false, c["race"] == true)
 	default:
 		res, err = w.Raw(c)
 	}
@@ -179,7 +179,7 @@ func pctSome(r *rand.Rand, s string) string {
 func (g *gen) shape() M {
 	r := g.r
 	kinds := []string{"service", "service", "service", "agent", "agent", "agent", "mesh-gateway", "server", "signing", "garbage"}
-	s := M{"kind": g.pick(kinds), "td": g.pick([]string{"own", "own", "own", "ownUpper", "foreign", "foreign"}),
+	s := M{"kind": g.pick(kinds), "td": g.pick([]string{"own", "own", "own", "own", "ownUpper", "ownUser", "foreign", "foreign", "ownPort", "ownUpperPort", "ownEmptyPort", "ownUserPort", "ipv6", "ownDot", "ownBracket"}),
 		"dc": g.pick([]string{"own", "own", "own", "other"}), "name": g.pick(names),
 		"enc": g.pick([]string{"plain", "plain", "pct", "pct", "case", "slash"}), "ap": g.pick([]string{"none", "none", "none", "default", "other"})}
 	kind := s["kind"].(string)
@@ -199,10 +199,21 @@ func (g *gen) shape() M {
 	if r.Intn(3) == 0 {
 		return s // default spelling
 	}
-	host := cah.TrustDomain
+	host := cah.HostOf(s["td"].(string))
+	port := fmt.Sprintf(":%d", r.Intn(65536))
 	switch s["td"] {
 	case "ownUpper":
 		host = flipCase(r, cah.TrustDomain)
+	case "ownUser":
+		host = g.pick([]string{"user@", "u:p@", "@", "a%40b@"}) + g.pick([]string{cah.TrustDomain, flipCase(r, cah.TrustDomain)})
+	case "ownPort":
+		host = cah.TrustDomain + port
+	case "ownUpperPort":
+		host = flipCase(r, cah.TrustDomain) + port
+	case "ownUserPort":
+		host = "user@" + g.pick([]string{cah.TrustDomain, flipCase(r, cah.TrustDomain)}) + g.pick([]string{port, ":"})
+	case "ipv6":
+		host = g.pick([]string{"[::1]", "[::1]:8443", "[fe80::1%25en0]", "[2001:db8::1]"})
 	case "foreign":
 		host = g.pick(foreignHosts)
 	}
@@ -245,7 +256,9 @@ func (g *gen) shape() M {
 	if kind != "signing" {
 		switch r.Intn(12) {
 		case 0:
-			s["raw"] = strings.Replace(s["raw"].(string), "spiffe://", "spiffe://user@", 1)
+			if !strings.Contains(s["raw"].(string), "@") && s["td"] != "ownDot" && s["td"] != "ownBracket" {
+				s["raw"] = strings.Replace(s["raw"].(string), "spiffe://", "spiffe://user@", 1)
+			}
 		case 1:
 			s["raw"] = s["raw"].(string) + "?x=1"
 		case 2:
@@ -424,9 +437,9 @@ func random(profile string, seed int64, n, length int, out string) {
 			} else {
 				switch x := g.r.Intn(100); {
 				case x < 4:
-					c = M{"t": "rotate"}
+					c = M{"t": "rotate", "race": g.r.Intn(2) == 0}
 				case x < 8:
-					c = M{"t": "reconfig"}
+					c = M{"t": "reconfig", "race": g.r.Intn(2) == 0}
 				default:
 					c = g.signCmd()
 				}
